@@ -16,6 +16,9 @@ def main():
     import random as _r
     for i in range(job.get('warmup', 0)):
         S.drive(S.gen_sim(_r.Random(1000 + i)), 3)
+    if job.get('counter_start'):
+        from eudoxia.executor.container import Container
+        Container.next_container_num = job['counter_start']
     if job['kind'] == 'sim':
         case, run = S.drive(job['recipe'], job['mask'])
         print(json.dumps(dict(obs=case['obs'], slots=case['float_slots'], err=run.err)))
